@@ -394,6 +394,12 @@ class Adapter:
             o.set(a=val)
         else:
             o.a = z          # raw primary key value
+    def do_SetMany(self, ev):
+        o = self.obj('B', ev['k'])
+        z = ev['y']
+        val = self.obj('A', z) if z else None
+        o.set(u=ev['x'] or None, a=val)
+
     def do_CollAdd(self, ev):
         a = self.obj('A', ev['k'])
         b = self.obj('B', ev['x'])
